@@ -44,12 +44,8 @@ def main():
       continue
     for xb in r["x"]:
       rep.count((r["desc"], xb))
-    for bi in coq["bad"][:1]:
-      xb, yb = r["x"][bi], r["y"][bi]
-      rep.violation(f"model-mismatch-{r['desc']}",
-                    f"{r['desc']}: implementation output differs from the Coq nearest-code model",
-                    {"config": c, "x_bits": xb, "x": float(env.b2f([xb])[0]), "y_bits": yb,
-                     "y": float(env.b2f([yb])[0]), "n_bad": len(coq["bad"])})
+    mismatch = list(coq["bad"])
+    prop_fail_idx = set()
     rep.sample({"config": r["desc"], "x_bits": r["x"][:3], "y_bits": r["y"][:3]})
     se, lo, hi = fixed_k.fmt_of(c)
     step = 2.0 ** se
@@ -71,10 +67,22 @@ def main():
       err = np.abs(y_eff - target)
       bad = hyp & (err > step / 2 + tol)
       n_near += int(hyp.sum())
+      prop_fail_idx |= set(np.where(bad)[0].tolist())
       if bad.any():
         i = int(np.where(bad)[0][0])
         rep.violation(f"not-nearest-{r['desc']}", f"{r['desc']}: |q(x) - clip(act(x))| = {err[i]} > step/2 = {step / 2}",
                       {"config": c, "x_bits": r["x"][i], "x": float(x[i]), "y": float(y[i])})
+    if mismatch:
+      # correspondence broke: prefer a disagreeing input on which the property itself fails (further than half a step)
+      cand = [bi for bi in mismatch if bi in prop_fail_idx]
+      bi = cand[0] if cand else mismatch[0]
+      xb, yb = r["x"][bi], r["y"][bi]
+      rep.violation(f"model-mismatch-{r['desc']}",
+                    f"{r['desc']}: implementation output differs from the Coq nearest-code model" +
+                    (" and is further than half a step from the activation" if cand else
+                     " (still a nearest code, e.g. another tie direction: correspondence Quant/Fixed.v no longer checks)"),
+                    {"config": c, "x_bits": xb, "x": float(env.b2f([xb])[0]), "y_bits": yb, "y": float(env.b2f([yb])[0]),
+                     "n_bad": len(mismatch), "correspondence": "Quant/Fixed.v chk_* vs quantizers.py"}, no_input=not cand)
     # (c) monotone non-decreasing
     idx = np.where(hyp)[0]
     order = idx[np.argsort(x[idx], kind="stable")]
